@@ -222,6 +222,23 @@ def run_case(tier, seed, index, spec=None):
                     V('apply-value', f'apply({vals}) = {got!r}, table says {exp} ({name})', domains=descr)
                     break
 
+    # ---------------- weights re-assigned through the setter: apply(), == and shape follow the new weights
+    if 'tensor' in reps and all(shape):
+        f_ = fggs.FiniteFactor(D, torch.tensor(wl, dtype=torch.float64).reshape(shape))
+        idx0 = tuple(rng.randrange(s_) for s_ in shape)
+        vals0 = [d_.denumberize(i) for d_, i in zip(D, idx0)]
+        o1 = C.call(f_.apply, vals0)
+        neww = torch.tensor(wl, dtype=torch.float64).reshape(shape) + 1.0
+        o2 = C.call(lambda: setattr(f_, 'weights', neww))
+        o3 = C.call(f_.apply, vals0)
+        obs['apply_after_reassign'] = obs.get('apply_after_reassign', 0) + 1
+        if o1['ok'] and o2['ok'] and o3['ok']:
+            exp1 = G.get_nested(wl, idx0) if shape else wl
+            if float(o3['value']) != float(exp1) + 1.0:
+                V('apply-stale-after-reassign', f'after fac.weights = w + 1, apply({vals0}) = {float(o3["value"])!r}, the new table says {float(exp1) + 1.0!r}', domains=descr)
+            if f_ == reps['tensor']:
+                V('factor-equality', 'a factor whose weights were re-assigned still equals the factor with the old weights', domains=descr)
+
     # ---------------- factor equality
     if 'tensor' in reps:
         f = reps['tensor']
